@@ -656,9 +656,11 @@ end
 user were alone", for every history of the atomic model, every instance of the parameters and every
 user = set `J` of cookie jars (several devices / sessions of one person).
 
-*Hypothesis* (`ServerM.DisciplinedF`): only the property's own proviso "no account name is re-used while
-sessions / tasks of its previous owner exist" (necessary: `stale_cookie_interferes`,
-`late_write_interferes`), and nobody passes the credential check of an account of the other side
+*Hypothesis* (`ServerM.DisciplinedF`): no account name is (re-)used by the other side while ANYTHING of its previous
+owner exists - account record, session, live task, running-set entry or PROBLEM DOCUMENT (`ServerM.Free`).  The
+last two go beyond the wording of the property's proviso ("… while sessions / tasks of its previous owner exist")
+and are necessary too: `orphan_problem_interferes` (necessity of the others: `stale_cookie_interferes`,
+`late_write_interferes`); and nobody passes the credential check of an account of the other side
 (who does, IS that user).  Every other mention of a name that is in use by the other side (a CONFLICT)
 is allowed: `register v`, `update → v`, a failed `login v`, a generated temporary name that is taken,
 the unused name proposal of an authenticated `add` (fourth argument `ghost = true`) — by the others
@@ -1184,8 +1186,9 @@ theorem find_returns_own (db : Db T H A R) (u n : T) :
 was returned by a find carrying that jar's identity while the request was in flight").  Every piece of
 problem data in a delivered response is the image (`infoOf`: name, code, parsing, results) of a
 document `p` that the database returned to a `find_one` / `find` of a request of the SAME jar, logged
-with an identity equal to the document's `username` at that moment: a response never contains a
-problem that was, when read, owned by anybody but the identity the request acted for.  (Between the
+with an identity equal to the document's `username` at that moment (the logged request is SOME request of that
+jar, not necessarily the one answered - the statement about THE request answered is
+`response_in_flight_from_own_finds` below).  (Between the
 read and the delivery the document may have been renamed or deleted by that same identity from
 another device — at command granularity "contains a problem owned by" can only refer to the moment
 of the read.) -/
@@ -1208,8 +1211,9 @@ program of that request (its jar, the identity decoded from its cookie at arriva
 with the list `rs` of results the database returned to the commands THIS request issued (`Fed`), and is
 determined by these (`Fed.det`): two runs, under whatever schedules and whatever the other requests in
 flight do, in which the request's own commands return the same results end in the same response.  And
-all problem documents among those results carry the user name in the filter of their command, which is
-the request's identity (`log_carries_identity`) — a handler never sees a document of another user. -/
+all problem documents among those results carry the user name in the filter of their command.  (That this
+filter is the request's identity is NOT part of this statement - no fact about the handlers is used here; it is
+`response_determined_by_own_identity` below.) -/
 theorem response_determined_by_own_results (E : Env T H A R) (sched : List (Act T)) :
     ∀ f ∈ (runC E {} sched).pool, ∃ rs : List (Answer T H A R),
       Fed (handler E f.jar f.id f.req) rs f.prog ∧
@@ -1218,6 +1222,58 @@ theorem response_determined_by_own_results (E : Env T H A R) (sched : List (Act 
   intro f hf
   obtain ⟨rs, h1, h2⟩ := FedInv.run E sched {} (FedInv.init E) f hf
   exact ⟨rs, h1, h2, fun q hq => Fed.det hq h1⟩
+
+/-! third review (audit L1): `responses_from_own_finds` ties the data of a response only to SOME request of the same
+jar, and `response_determined_by_own_results` uses no fact about the handlers (its third conjunct is determinism of a
+program, its second a fact about `exec`).  The two theorems below state what the docstrings above promise: the data
+of THE response comes from finds of THE request, and every command whose result the request was fed carries the
+request's own identity (`handler_owner_only`). -/
+
+/-- repaired form of `responses_from_own_finds`: ties the data to THE request (same jar, same identity, same payload) -/
+theorem response_in_flight_from_own_finds (E : Env T H A R) (sched : List (Act T)) :
+    ∀ f ∈ (runC E {} sched).pool, ∀ r, f.prog = .ret r → ∀ i ∈ infos r.body,
+      ∃ e ∈ (runC E {} sched).log, ∃ p ts, e.src = .request f.jar f.id f.req ∧ p ∈ e.returned ∧ i = infoOf p ts ∧
+        probUser e.cmd = some p.username ∧ actor f.id f.req = some p.username := by
+  intro f hf r hr i hi
+  have rinv := RInv.run E sched {} RInv.init
+  have h := rinv.pool f hf
+  rw [hr] at h
+  cases h with
+  | ret _ _ h =>
+    obtain ⟨p, ts, ⟨e, he, h1, h2⟩, h3⟩ := h i hi
+    have hu := rinv.ret e he p h2
+    have ha := (log_carries_identity E sched e he).2 _ hu
+    rw [h1] at ha
+    exact ⟨e, he, p, ts, h1, h2, h3, hu, ha⟩
+
+/-- strengthened `response_determined_by_own_results`: every command whose result the request was fed carries the
+request's OWN identity (so every document it was handed has `username` = that identity) -/
+theorem response_determined_by_own_identity (E : Env T H A R) (sched : List (Act T)) :
+    ∀ f ∈ (runC E {} sched).pool, ∃ rs : List (Answer T H A R),
+      Fed (handler E f.jar f.id f.req) rs f.prog ∧
+      (∀ a ∈ rs, Owned f.jar (actor f.id f.req) (reqNames f.req) a.1) ∧
+      (∀ a ∈ rs, ∀ p ∈ foundBy a.1 a.2, actor f.id f.req = some p.username) ∧
+      (∀ q, Fed (handler E f.jar f.id f.req) rs q → q = f.prog) := by
+  intro f hf
+  obtain ⟨rs, h1, h2⟩ := FedInv2.run E sched {} (by intro f hf; cases hf) f hf
+  have h3 := (Fed.allCmds h1 (handler_owner_only E f.jar f.id f.req) h2).1
+  refine ⟨rs, h1, h3, ?_, fun q hq => Fed.det hq h1⟩
+  intro a ha p hp
+  have ho := h3 a ha
+  have hr := h2 a ha
+  obtain ⟨c, r⟩ := a
+  cases c with
+  | pFindOne u n =>
+    simp only [foundBy, Option.mem_toList] at hp
+    have := (hr p hp).1
+    simp only [Owned] at ho
+    rw [← ho, this]
+  | pFindAll u =>
+    simp only [foundBy] at hp
+    have := hr p hp
+    simp only [Owned] at ho
+    rw [← ho, this]
+  | _ => cases hp
 
 /-- **unauthenticated requests obtain no problem data, under every schedule**: in every reachable state,
 a request in flight that arrived without a session (`id = none`) and has reached its response carries no
@@ -1488,6 +1544,79 @@ theorem delete_add_race_orphan :
       some (2, ⟨200, .keep, .problems [⟨5, 9, .naive, .some 9, {}, []⟩]⟩) := by
   constructor <;> decide
 
+/-! ### third review (audit L1): further witnesses and instantiations -/
+
+/-- ATOMIC model. alice on two devices; device 0 deletes the account; device 1 (stale cookie) adds problem 5,
+its parse task finishes and writes; device 1 then logs in to another account (9).  Now NO session and NO live
+task of `1` exists, but an orphan problem (1,5).  carol (jar 3) registers the name 1. -/
+def histOrphan : List (Event Nat) :=
+  [ .req ⟨0, .register 1 7 0⟩, .req ⟨0, .login 1 7⟩, .req ⟨1, .login 1 7⟩, .req ⟨0, .deleteAccount⟩,
+    .req ⟨1, .add 5 (some 9) none .naive 200 201⟩, .finish 1 0, .write 1 0,
+    .req ⟨1, .register 9 4 2⟩, .req ⟨1, .login 9 4⟩,
+    .req ⟨3, .register 1 8 1⟩, .req ⟨3, .login 1 8⟩, .req ⟨3, .list⟩ ]
+def stO := (runAll E0 {} (histOrphan.take 9)).1
+-- at the moment of the re-use: no account 1, no session 1 (jars 0..3), no live task, nothing running; one problem (1,5)
+example : stO.db.users.map (·.username) = [9] ∧ [0,1,2,3].map stO.sess = [none, some 9, none, none] ∧
+    stO.db.tasks.all (fun t => !live t) = true ∧ stO.db.running = [] ∧
+    stO.db.problems.map (fun p => (p.username, p.name)) = [(1,5)] := by decide
+/-- **an orphan problem interferes**: no account, session, live task or running entry of the name exists when it
+is re-used, only a problem document - and the new owner's view differs from her alone run and from the
+reserved-names run; `DisciplinedF` rejects the history through `Free.probs` only -/
+theorem orphan_problem_interferes :
+    obsJ jC (runAll E0 {} histOrphan).2 ≠ obsJ jC (runAll E0 {} (histOrphan.filter (fun e => jC e.jar))).2 ∧
+    obsJ jC (runAll E0 {} histOrphan).2 ≠ runRsv E0 jC {} {} histOrphan ∧
+    discF E0 jC jarsAll true true (fun _ => none) {} histOrphan = false := by
+  refine ⟨?_, ?_, ?_⟩ <;> decide
+example : obsJ jC (runAll E0 {} histOrphan).2 ≠ obsJ jC (runAll E0 {} (histOrphan.filter (fun e => jC e.jar))).2 := by decide
+example : (runAll E0 {} histOrphan).2.getLast? = some (3, ⟨200, .keep, .problems [⟨5, 9, .naive, .some 9, {}, []⟩]⟩) := by decide
+-- ... and ≠ runRsv as well; DisciplinedF's checker rejects the history only because of `Free.probs`
+example : obsJ jC (runAll E0 {} histOrphan).2 ≠ runRsv E0 jC {} {} histOrphan := by decide
+example : discF E0 jC jarsAll true true (fun _ => none) {} histOrphan = false := by decide
+
+/-- one browser (jar 0), two tabs: delete-account ∥ add.  Afterwards NO session and NO live task of alice is left -/
+def deleteAddRace1 : List (Act Nat) :=
+  [.arrive ⟨0, .deleteAccount⟩, .arrive ⟨0, .add 5 (some 9) none .naive 200 201⟩,
+   .cmd 1, .cmd 0, .cmd 1, .cmd 0, .cmd 1, .deliver 1, .deliver 0, .finish 0 0, .write 0 0]
+
+def afterRace := runC E0 aliceIn deleteAddRace1
+-- both 200; no account, no session of any jar in 0..3, no live task, no running entry; one orphan problem (1,5)
+example : afterRace.out.map (fun x => (x.1, x.2.status)) = [(0,200),(0,200),(0,200),(0,200)] := by decide
+example : afterRace.db.users = [] ∧ [0,1,2,3].map afterRace.sess = [none,none,none,none] ∧
+    afterRace.db.tasks.all (fun t => !live t) = true ∧ afterRace.db.running = [] ∧
+    afterRace.db.problems.map (fun p => (p.username, p.name)) = [(1,5)] := by decide
+-- carol (jar 2) registers the name, logs in, lists: she sees the deleted user's problem
+example : (runC E0 afterRace
+    [.arrive ⟨2, .register 1 8 1⟩, .cmd 0, .cmd 0, .deliver 0, .arrive ⟨2, .login 1 8⟩, .cmd 0, .deliver 0,
+     .arrive ⟨2, .list⟩, .cmd 0, .cmd 0, .deliver 0]).out.getLast? =
+    some (2, ⟨200, .keep, .problems [⟨5, 9, .naive, .some 9, {}, []⟩]⟩) := by decide
+
+
+def preA : List (Act Nat) := seqSchedule E0 {} [.req ⟨0, .register 1 7 0⟩, .req ⟨0, .login 1 7⟩] ++ addRace
+theorem preA_eq : runC E0 {} preA = runC E0 aliceIn addRace := by
+  unfold preA aliceIn; rw [runC_append]
+
+theorem quiet_bob : QuietC E0 1 (runC E0 aliceIn addRace) bobActs := by
+  simp only [bobActs, QuietC, and_true]
+  refine ⟨?_, ?_, ?_, ?_, ?_, ?_, ?_, ?_, ?_, ?_, ?_, ?_, ?_, ?_, ?_⟩ <;>
+    first
+      | (intro h; exact h)
+      | (intro h; obtain ⟨f, hf, hx⟩ := h; revert hf hx; decide +revert)
+      | (intro h; obtain ⟨t, ht, hx⟩ := h; revert ht hx; decide +revert)
+
+-- the THEOREM instantiated
+example : ownedBy 1 (runC E0 (runC E0 {} preA) bobActs).db = ownedBy 1 (runC E0 {} preA).db :=
+  isolation_all_schedules E0 1 preA bobActs (by rw [preA_eq]; exact quiet_bob)
+
+-- (A) clause (2) of noninterference_full, with exactly its hypothesis (ownConfl=false, ghost=true)
+theorem histX4_F_false_true : DisciplinedF E0 jB false true (fun _ => none) {} histX4 :=
+  discF_sound E0 jB jarsAll false true histX4 _ _ (fun _ _ => rfl) (by decide) (by decide)
+example : obsJ jB (runAll E0 {} histX4).2 = obsJ jB (runAll E0 {} (histX4.filter (fun e => jB e.jar))).2 :=
+  (noninterference_full Nat (Nat × Nat) Nat Nat E0 jB histX4).2 histX4_F_false_true
+-- clause (1) with exactly its hypothesis
+example : obsJ jA (runAll E0 {} histX5).2 = runRsv E0 jA {} {} histX5 :=
+  (noninterference_full Nat (Nat × Nat) Nat Nat E0 jA histX5).1 histX5_disciplinedF
+
+
 end
 
 end C17
@@ -1535,3 +1664,15 @@ end C17
 #print axioms C17.histX3_disciplinedF
 #print axioms C17.histX4_disciplinedF
 #print axioms C17.histX4_bob
+#print axioms C17.response_in_flight_from_own_finds
+#print axioms C17.response_determined_by_own_identity
+#print axioms C17.orphan_problem_interferes
+#print axioms C17.histX4_F_false_true
+#print axioms C17.isolation_commands
+#print axioms C17.find_returns_own
+#print axioms C17.histX5_disciplinedF
+#print axioms C17.isolation
+#print axioms C17.login_iff
+#print axioms C17.noninterference_partial
+#print axioms C17.stale_cookie_interferes
+#print axioms C17.late_write_interferes
